@@ -452,11 +452,16 @@ func runClient(c CCase) cResult {
 			select {
 			case m = <-out:
 				_ = m
-				if c.Kind == "blocked-output" {
+				if c.Kind == "blocked-output" || c.Kind == "blocked-output-long" {
 					// downstream takes a message only now and then: the client mostly sits in its
-					// blocked-output loop
+					// blocked-output loop (long: ONE blockage of 1.4 s, dozens of progress intervals: the status
+					// updates must not thin out the longer it lasts)
+					pause := 120 * time.Millisecond
+					if c.Kind == "blocked-output-long" {
+						pause = 1400 * time.Millisecond
+					}
 					select {
-					case <-time.After(120 * time.Millisecond):
+					case <-time.After(pause):
 					case <-stopDrain:
 						return
 					}
@@ -579,11 +584,14 @@ func init() {
 		j, _ := json.Marshal(r)
 		return string(j) + "\n"
 	}, Run: func(rng *rand.Rand, n int, corpusDir string, rep *core.Report) string {
-		rep.Rule = "wall-clock TEST of the runtime residue of C18 (not a proof): the real client with a 20-40 ms progress interval over a fake connection that streams one long transaction every 2-6 ms, or is idle (receives time out after 30-60 ms), or whose consumer blocks (output channel full), or alternates, or sends only nil messages / keepalives without reply request / a slow keepalive followed at once by a nil message; the longest silence towards PostgreSQL must stay below progress interval + receive timeout + 250 ms slack. A case is reported only after failing 3 times in a row. Non-trivial: every case."
-		kinds := []string{"steady-data", "idle", "blocked-output", "mixed", "nil-messages", "keepalives-no-reply", "keepalive-then-nil"}
+		rep.Rule = "wall-clock TEST of the runtime residue of C18 (not a proof): the real client with a 20-40 ms progress interval over a fake connection that streams one long transaction every 2-6 ms, or is idle (receives time out after 30-60 ms), or whose consumer blocks (output channel full; also ONE blockage of 1.4 s), or alternates, or sends only nil messages / keepalives without reply request / a slow keepalive followed at once by a nil message; the longest silence towards PostgreSQL must stay below progress interval + receive timeout + 250 ms slack. A case is reported only after failing 3 times in a row. Non-trivial: every case."
+		kinds := []string{"steady-data", "idle", "blocked-output", "mixed", "nil-messages", "keepalives-no-reply", "keepalive-then-nil", "blocked-output-long"}
 		cases := make([]CCase, n)
 		for i := range cases {
 			cases[i] = CCase{Kind: kinds[i%len(kinds)], ProgressMs: 20 + rng.Intn(21), RecvMs: 30 + rng.Intn(31), GapMs: 2 + rng.Intn(5), DurMs: 700 + rng.Intn(300)}
+			if cases[i].Kind == "blocked-output-long" {
+				cases[i].DurMs = 1500
+			}
 		}
 		whats := make([]string, n)
 		results := make([]cResult, n)
